@@ -53,7 +53,8 @@ func derParse(b []byte, depth int) ([]*derNode, bool) {
 			if len(ch) == 0 {
 				nd.children = []*derNode{}
 			}
-		case (b[start] == 0x04 || b[start] == 0x03) && n > 2:
+		case n > 2: // any primitive whose content is itself one complete encoding is descended into (OCTET / BIT STRING
+			// wrappers, and oddities such as gmsm's PKCS#7 GCM parameters, which sit inside a primitive tag 0x10)
 			skip := 0
 			if b[start] == 0x03 {
 				skip = 1
